@@ -2,7 +2,7 @@
 # Runs the repository's own test suite with the verif guard OFF (no -tags verif), the way BASELINE.json does.
 # Prints "BASELINE pass=<n> fail=<n>" and exits 0 when every test listed as stable_pass in /root/.vp/BASELINE.json passes.
 set -u
-export GOPROXY=off GOSUMDB=off
+export GOPROXY=off GOSUMDB=off GOTOOLCHAIN=local
 unset GOFLAGS
 OUT=${1:-/tmp/verif-baseline-$$.json}
 : > "$OUT"
